@@ -68,9 +68,9 @@ def saved_loaded_keys(prog: Program, c: ClassInfo) -> Tuple[Set[object], Set[obj
     loaded: Set[object] = set()
     for k in c.mro_classes():
         if 'save_instance_state' in k.methods:
-            saved |= set(saved_keys_of(prog, prog.view(k.methods['save_instance_state'])))
+            saved |= set(saved_keys_of(prog, prog.view(k.vmethods['save_instance_state'])))
         if 'load_instance_state' in k.methods:
-            loaded |= set(loaded_keys_of(prog, prog.view(k.methods['load_instance_state'])))
+            loaded |= set(loaded_keys_of(prog, prog.view(k.vmethods['load_instance_state'])))
     return saved, loaded
 
 
@@ -142,7 +142,7 @@ def calls_super_on_all_paths(f: FuncInfo, name: Optional[str] = None) -> bool:
 def init_fields(c: ClassInfo) -> Dict[str, ast.AST]:
     """Attributes assigned on self in the class's own __init__ (attribute -> first assignment node)."""
     out: Dict[str, ast.AST] = {}
-    f = c.methods.get('__init__')
+    f = c.vmethods.get('__init__')
     if f is None:
         return out
     for n in walk_shallow(ast.Module(body=f.node.body, type_ignores=[])):
